@@ -618,6 +618,19 @@ def run(prop, args):
         "from_f %s" % " ".join(dh(x) for x in [1.0, 0, 32767.5, 0, 1, 0, 0, 0, 1]),  # (32767, 32768) refused
         "scale 0 1 %s %s 1 2" % (" ".join(map(str, ID9)), " ".join(map(str, ID9))),   # reciprocal not representable
         "translate 0 1 %s %s -2147483648 5" % (" ".join(map(str, ID9)), " ".join(map(str, ID9))),
+        # factor matrices that are not representable, with every combination of requested outputs
+        "rotate 0 0 %s %s 3 -2147483648" % (" ".join(map(str, ID9)), " ".join(map(str, ID9))),
+        "rotate 1 0 %s %s 3 -2147483648" % (" ".join(map(str, ID9)), " ".join(map(str, ID9))),
+        "rotate 0 1 %s %s 3 -2147483648" % (" ".join(map(str, ID9)), " ".join(map(str, ID9))),
+        "translate 0 0 %s %s -2147483648 5" % (" ".join(map(str, ID9)), " ".join(map(str, ID9))),
+        "translate 1 0 %s %s -2147483648 5" % (" ".join(map(str, ID9)), " ".join(map(str, ID9))),
+        "translate 0 1 %s %s -2147483648 5" % (" ".join(map(str, ID9)), " ".join(map(str, ID9))),
+        "scale 0 0 %s %s 1 2" % (" ".join(map(str, ID9)), " ".join(map(str, ID9))),
+        "scale 1 0 %s %s 1 2" % (" ".join(map(str, ID9)), " ".join(map(str, ID9))),
+        "scale 0 1 %s %s 1 2" % (" ".join(map(str, ID9)), " ".join(map(str, ID9))),
+        "scale 0 0 %s %s 0 5" % (" ".join(map(str, ID9)), " ".join(map(str, ID9))),
+        "scale 1 0 %s %s 0 5" % (" ".join(map(str, ID9)), " ".join(map(str, ID9))),
+        "scale 0 1 %s %s 0 5" % (" ".join(map(str, ID9)), " ".join(map(str, ID9))),
         "invert 305419896 591751048 878082202 267242408 517782168 768321926 286331152 554766608 823202064 0",   # singular, TRUE
     ]
     calls += random_calls(rng, 2500 if quick else 40000)
